@@ -60,7 +60,7 @@ RULE = (
     "precompute=True) / ProbabilisticAL(rbf)) x 2-3 data sets with feature "
     "scales drawn without replacement from {0.1, 1, 10}, 3-9 rows each, "
     "1-2 features, NaN labels x probe set (rows near every data set) x op "
-    "list (3-9 ops). Distinct = distinct case hash. Non-trivial = two "
+    "list (1-9 ops). Distinct = distinct case hash. Non-trivial = two "
     "training calls (fit; partial_fit for incremental learners) on two "
     "different data sets (hence different feature variance) with a "
     "predict-type op in between; pool: two queries on different data "
@@ -93,9 +93,14 @@ ASSUMPTIONS = [
     "depend on the tie-break of the earlier picks)",
     "an exception of fit / partial_fit / pool query is a C13 violation only "
     "if a fresh clone accepts the very same single call (history "
-    "dependence); if the fresh clone raises the same exception type the "
-    "case is labelled rejected_by_fresh_object_too and ends (e.g. sklearn's "
-    "mixture model refusing collapsed data) - other properties own that",
+    "dependence), an exception of the predictions after a training call "
+    "only if a fresh clone replaying the calls since the last fit can "
+    "predict; if the fresh clone raises the same exception type the case is "
+    "labelled rejected_by_fresh_object_too and ends (seen: sklearn's mixture "
+    "model refusing collapsed data, NICKernelRegressor rejecting all-zero "
+    "weights of an unlabeled data set, SklearnRegressor(SGDRegressor)."
+    "predict after a fit without labels, ParzenWindowClassifier(gamma="
+    "'mean') on an empty sliding window) - other properties own those",
     "an estimator object passed as a parameter is compared through its "
     "complete __dict__: fitting the caller's estimator in place counts as "
     "a change of what get_params reports",
@@ -944,7 +949,6 @@ def _run_estimator(case):
 
     n_fit = 0            # successful training calls so far
     fitted = False
-    last_fit_ds = None
     trained_ds = []      # (op index, ds) of training calls
     pred_ops = []        # op indices of predict-type ops (on a fitted obj)
     segment = []         # training calls since the last fit (inclusive)
@@ -1028,7 +1032,6 @@ def _run_estimator(case):
 
         if name == "fit":
             segment = [(name, X, y, w)]
-            last_fit_ds = op["ds"]
         else:
             segment.append((name, X, y, w))
 
